@@ -42,7 +42,7 @@ GInit ==
 UsefulReport(v, id, shape) ==
     /\ id <= count + 1
     /\ \/ ReportAcceptable(v, id, shape)
-       \/ (id <= count /\ v \in gvals[id] /\ shape # "exact" /\ v \notin rep[id])   \* wrong shape from a legitimate reporter
+       \/ (id <= count /\ v \in gvals[id] /\ shape \notin OKShapes /\ v \notin rep[id])   \* wrong shape from a legitimate reporter
        \/ (shape = "exact" /\ ~ReportAcceptable(v, id, shape))                        \* duplicate / outsider / late / unknown id
 
 \* the last step is a plain EndBlock so that the final level has a single successor (TLC evaluates
